@@ -175,7 +175,8 @@ def run(prop_id, modname, jobs_fn, meta, argv=None):
         "truncated_structures": agg["truncated_jobs"],
         "functions_encoded": meta.get("functions", []),
         "source_sha1": source_shas(meta.get("files", [])),
-        "bound": meta.get("bound", {}).get(tier, meta.get("bound")),
+        "bound": (meta.get("bound", {}).get(tier, meta.get("bound")) if isinstance(meta.get("bound"), dict)
+                  else meta.get("bound")),
         "outside_claim": meta.get("outside", []),
         "stubs": meta.get("stubs", []),
         "per_structure": per_job[:200],
@@ -206,6 +207,8 @@ def run(prop_id, modname, jobs_fn, meta, argv=None):
     rc = EXIT_OK
     if confirmed:
         rc = EXIT_VIOLATION
+        for e in errors[:10]:
+            print("HARNESS-ERROR:", e[:600])
     elif errors or unconfirmed or agg["reach_failed"] or agg["cvc5_disagree"]:
         for e in errors[:10]:
             print("HARNESS-ERROR:", e[:1500])
